@@ -198,6 +198,22 @@ class VElemList(Val):
         self.t = t
 
 
+class VAttrib(Val):
+    """the attribute mapping of a document element (read-only): uninterpreted has / value functions of (element, key)"""
+    kind = ('attrib',)
+
+    def __init__(self, elem):
+        self.elem = elem
+
+
+class VHeapMap(Val):
+    """a dict stored in a heap field, read-only in the verified function: has / value functions of (owner, key)"""
+
+    def __init__(self, owner, field, key_kind, val_kind):
+        self.owner, self.field, self.key_kind, self.val_kind = owner, field, key_kind, val_kind
+        self.kind = ('heapmap', key_kind, val_kind)
+
+
 class VNode(Val):
     kind = NODE
 
